@@ -1,3 +1,4 @@
+import Casket.Model.Path
 /-
 Model of the message path of caskethttp/proxy:
   proxy.go         createUpstreamRequest, the per-attempt part of Proxy.ServeHTTP
@@ -225,6 +226,10 @@ def sHttps : Str := [104, 116, 116, 112, 115]
 def sSrv : Str := [115, 114, 118]
 def sSrvHttps : Str := [115, 114, 118, 43, 104, 116, 116, 112, 115]
 
+/-- `URL.EscapedPath()` of a URL with the given Path and RawPath: RawPath when it is a valid
+encoding of Path, else the default escaping of Path (model of net/url in Model/Path.lean) -/
+def escapedOf (path raw : Str) : Str := Casket.Path.escapedPath { path := path, rawPath := raw, rawQuery := [] }
+
 /-- the Director closure of `NewSingleHostReverseProxy` for a non-unix target -/
 def director (t : URL) (without : Str) (u : URL) : URL :=
   let scheme := if t.scheme == sSrv then sHttp else if t.scheme == sSrvHttps then sHttps else t.scheme
@@ -235,7 +240,8 @@ def director (t : URL) (without : Str) (u : URL) : URL :=
     if opaque1 != [] || t.opaq != [] then singleJoiningSlash (prefer t.opaq t.path) (prefer opaque1 path1)
     else opaque1
   let raw2 :=
-    if raw1 != [] || t.rawPath != [] then singleJoiningSlash (prefer t.rawPath t.path) (prefer raw1 path1)
+    if raw1 != [] || t.rawPath != [] then
+      singleJoiningSlash (escapedOf t.path t.rawPath) (escapedOf path1 raw1)
     else raw1
   let path2 := singleJoiningSlash t.path path1
   let query :=
@@ -324,6 +330,39 @@ def attempt (repl : Str → Str) (u : Upstream) (o : Request) : Request :=
 /-- what the backend transport is handed for the first attempt -/
 def forward (hop : List Str) (repl : Str → Str) (u : Upstream) (r : Request) : Request :=
   attempt repl u (createUpstreamRequest hop r)
+
+/-! ### body and framing of the outgoing request -/
+
+/-- `requiresBuffering`: the body is read into memory (`newBufferedBody`) and rewound before every
+attempt exactly when the request may be retried on another backend -/
+def requiresBuffering (hostCount tryDuration : Nat) : Bool := decide (hostCount > 1) && tryDuration != 0
+
+/-- The body handed to the transport: nil when Content-Length is 0, else the client's bytes —
+read from the connection as they come (streamed) or from the buffer; `ContentLength` and
+`TransferEncoding` of the request are not touched by either path. -/
+def outgoingBody (buffered : Bool) (r : Request) : Option Str :=
+  if r.contentLength == 0 then none
+  else if buffered then r.body.map (fun b => b) else r.body
+
+/-- how the outgoing request is framed on the wire -/
+inductive Framing where
+  /-- no body: `Content-Length: 0` or no length at all -/
+  | none
+  | length (n : Nat)
+  | chunked
+deriving Repr, DecidableEq
+
+/-- net/http's choice (transfer writer of `http.Transport`) for a request with the given
+ContentLength and Body: a declared length is sent as Content-Length; an unknown length (-1, which
+the incoming request only has with `TransferEncoding: chunked`, carried over to the outgoing one)
+as chunked coding, also when the body turns out empty. -/
+def wireFraming (o : Request) : Framing :=
+  match o.body with
+  | Option.none => .none
+  | some _ =>
+    if o.contentLength > 0 then .length o.contentLength.toNat
+    else if o.contentLength < 0 then .chunked
+    else .none
 
 /-- What the transports of two successive attempts are handed when the first backend fails and the
 request is retried on a second one: `Proxy.ServeHTTP` restores URL and headers of the outgoing
